@@ -163,6 +163,7 @@ func checkC03(c *Check) {
 	c03CommitOrder(c)
 	c03Permits(c)
 	c03GetDelivery(c)
+	c03StartOnlyWhenAbsent(c, "R6b")
 
 	// R5c: "every rate or concurrency permit taken for the transaction is returned" also inside the limiter group: a
 	// TakeMsg that fails at a narrower scope gives back what the wider scopes granted, the remote target pairs its
